@@ -16,3 +16,12 @@ func init() {
 		Quick:       tierSpec{Checks: 40000, Shards: 8, Timeout: 120},
 		Thorough:    tierSpec{Checks: 1500000, Shards: 16, Timeout: 840}})
 }
+
+func init() {
+	reg(&propSpec{ID: "C01",
+		Rule: "cases: rules-valid event streams from the G-EV grammar (narrow alphabet; nesting, every scalar kind, all time-zone forms, every array type through whole/string-like/chunked delivery, markers+references, record types/records, nodes, edges, media, custom binary, comments, padding); non-trivial = >=1 container, chunked array or numeric leaf outside the small-int range; distinct = FNV-64 of the serialised event list",
+		Assumptions: []string{"equivalence per DESIGN 3.2: ints/decimals by value, binary floats bit-exact, NaN kind only, non-float64 big floats within the decimal-conversion tolerance, comments dropped",
+			"known-finding regions are excluded by construction and counted in excluded_by_known_finding"},
+		Quick:    tierSpec{Checks: 60000, Shards: 12, Timeout: 150},
+		Thorough: tierSpec{Checks: 3000000, Shards: 16, Timeout: 840}})
+}
